@@ -33,14 +33,17 @@ def gen_params(r, mode, big):
     s = r.choice([1e-3, 1.0, 1.0, 1e3]) if big else 1.0
     # exact zeros are admissible parameter values and a classic special case (`if x:` vs `if x is None:`)
     val = lambda: 0.0 if r.random() < 0.12 else dy(r, -4, 4) * s
+    # a third of the locations are NOT dyadic (0.1, 1/3, ...: not representable in float32, inexact in float64), so a
+    # silent precision loss (float32 round trip, decimal truncation) shows up against the EXACT tolerance below
+    nd = lambda v: v + r.choice([0.1, 0.3, 1.0 / 3.0, 0.7]) if r.random() < 0.35 else v
     if mode.startswith('IVP'):
-        return {'t_0': dy(r, -3, 3), 'u_0': val(), 'u_0_prime': val()}, s
+        return {'t_0': nd(dy(r, -3, 3)), 'u_0': val(), 'u_0_prime': val()}, s
     if mode == 'DBVP':
-        t0 = dy(r, -3, 3)
-        d = r.choice([-1, 1]) * (dy(r, 0, 3) + 0.125)      # both orientations
+        t0 = nd(dy(r, -3, 3))
+        d = r.choice([-1, 1]) * nd(dy(r, 0, 3) + 0.125)      # both orientations
         return {'t_0': t0, 'u_0': val(), 't_1': t0 + d, 'u_1': val()}, s
-    x0 = dy(r, -3, 3)
-    d = r.choice([-1, 1]) * (dy(r, 0, 3) + 0.125)
+    x0 = nd(dy(r, -3, 3))
+    d = r.choice([-1, 1]) * nd(dy(r, 0, 3) + 0.125)
     return {'x_min': x0, 'x_max': x0 + d, 'a': val(), 'b': val()}, s
 
 
@@ -107,10 +110,29 @@ def run_cases(ck, res, n_cases, n_interval):
         for (pt, what, exp) in boundary_expect(mode, pv):
             i = pts.index(pt)
             got = uv[i] if what == 'value' else dv[i]
-            if not enga.close(got, exp, scale):
+            if not enga.close(got, exp, scale, rel=enga.EXACT):
                 ck.fail(f'{mode}/{what}@{"lo" if i == 0 else "hi"}',
                         f'{mode}{" (ith_unit)" if unit else ""}: enforced {what} at the constrained point is {got!r}, prescribed {exp!r}',
                         inp, expected=exp, actual=got)
+        # ---- the same under default dtype float32 with explicit float64 samples: a Python number that the code turns into
+        #      a default-dtype tensor (as_tensor, torch.tensor(...)) silently loses precision; exactness must not depend on it
+        if ci % 4 == 0:
+            try:
+                with enga.default_dtype(torch, torch.float32):
+                    t32 = enga.col(torch, pts)
+                    u32 = cond.enforce(net, t32)
+                    du32 = safe_diff(u32, t32)
+                uv32 = [float(x) for x in u32.detach().reshape(-1)]
+                dv32 = [float(x) for x in du32.detach().reshape(-1)]
+                for (pt, what, exp) in boundary_expect(mode, pv):
+                    i = pts.index(pt)
+                    got = uv32[i] if what == 'value' else dv32[i]
+                    if str(u32.dtype) == 'torch.float64' and not enga.close(got, exp, scale, rel=enga.EXACT):
+                        ck.fail(f'{mode}/{what}@{"lo" if i == 0 else "hi"}/default-float32',
+                                f'{mode}: with float64 samples under default dtype float32 the enforced {what} at the constrained point is {got!r}, prescribed {exp!r}',
+                                dict(inp, default_dtype='float32'), expected=exp, actual=got)
+            except Exception as e:
+                ck.fail(f'{mode}/enforce-raises/default-float32', f'enforce raised {type(e).__name__}: {e}', dict(inp, default_dtype='float32'))
         # ---- translation correspondence: IR vs torch, every row, value and derivative
         tname = mode + ('_unit' if unit else '')
         dist[tname] = dist.get(tname, 0) + 1
